@@ -25,8 +25,9 @@ Section RunP.
   Variable E : list vote.
   Hypothesis E_ok : forall v, In v E -> 0 <= v_from v < Z.of_nat n /\ 0 <= v_round v /\ v_from v <> own.
   Variable T0 : TM.state.
+  Variable K0 : vote -> Prop.
 
-  Local Notation Sim := (Sim n byz i E T0).
+  Local Notation Sim := (Sim n byz i E T0 K0).
   Local Notation known := (known i E).
 
   Record P (s : st) : Prop := {
@@ -341,6 +342,19 @@ Section RunP.
       constructor; cbn; auto; tauto.
   Qed.
 
+  Lemma P_set_cur_same x s : bps_id x = bps_id (cur s) -> P s -> P (set_cur x s).
+  Proof.
+    intros N [HI HD [T HS]]. constructor.
+    - eapply Inv_neutral; [apply nt_set_cur, neutral_refl|auto].
+    - eapply InvD_dsame; [apply ds_set_cur_same; [exact N|apply dsame_refl]|auto].
+    - exists T. eapply Sim_ssame; [|exact HS]. ss_setter.
+  Qed.
+
+  Lemma P_add_part b idx s : P s -> P (snd (add_part blocks b idx s)).
+  Proof.
+    apply P_same; [apply nt_add_part, neutral_refl|apply ds_add_part, dsame_refl|apply ssame_add_part].
+  Qed.
+
   Lemma P_new_step_commit_down s :
     P s -> status_ s = Running -> status_ (new_step SCommit s) <> Running -> P (new_step SCommit s).
   Proof.
@@ -527,4 +541,207 @@ Section RunP.
         | subst s5; match goal with |- context [if ?c then _ else _] => destruct c eqn:? end;
           [ apply P_unlock_prevote; [ assumption | assumption | subst; reflexivity | assumption | congruence ] | assumption ] ].
   Qed.
+
+  (* ------------------------------------------------------------------ the event handlers *)
+
+  Ltac hp :=
+    repeat match goal with
+      | |- P (let x := ?v in _) => plet_step
+      | |- P (run _ _ _ _ _ _ _) => apply run_P
+      | |- P (new_round _ _) => apply P_new_round; [ apply Z.ltb_lt; repeat andb_hyp; eauto | ]
+      | |- P (if ?c then _ else _) => destruct c eqn:?
+      | |- P (match ?x with _ => _ end) => destruct x eqn:?
+      | E : ?y = _ |- P ?y => rewrite E
+      | |- PRE _ _ => solve [constructor; exact I]
+      | _ => ppeel
+      end.
+
+  Lemma P_recv_proposal curh r from pol b s : P s -> P (recv_proposal n own blocks delay curh r from pol b s).
+  Proof.
+    intro HP. cbv beta delta [recv_proposal].
+    destruct (_ || _); auto. destruct (_ || _) eqn:C; auto.
+    apply orb_false_iff in C as [_ C]. apply step_leb_commit_false in C.
+    destruct (_ || _); auto. destruct (negb _); auto. destruct (cur s); auto.
+    repeat plet_step.
+    assert (H2 : P s2).
+    { subst s2 s1 s0. ppeel. apply P_set_cur; [cbn; auto|]. repeat ppeel. }
+    clear HP E0 E1 E2. hp.
+  Qed.
+
+  Lemma P_recv_part curh b idx s : P s -> P (recv_part n own blocks delay curh b idx s).
+  Proof.
+    intro HP. cbv beta delta [recv_part]. plet_step.
+    assert (H0 : P s0) by (subst s0; destruct (existsb _ _); auto; repeat ppeel).
+    clear E0 HP. destruct (negb curh); auto. destruct (cur s0); auto. destruct (bps_complete _ _); auto.
+    assert (H1 : P (snd (add_part blocks b idx s0))) by (apply P_add_part; auto).
+    destruct (add_part blocks b idx s0) as [added s1]. cbn in H1.
+    hp. constructor; [exact I| |exact I]. cbn. apply andb_true_iff in Heqb2 as [A _]. apply step_eqb_true; auto.
+  Qed.
+
+  Lemma P_recv_vote curh v s : P s -> known s v -> P (recv_vote n own blocks delay curh v s).
+  Proof.
+    intros HP K. cbv beta delta [recv_vote]. destruct (negb curh); auto.
+    apply run_P; auto. constructor; [exact I|exact I|exact K].
+  Qed.
+
+  Lemma P_timeout s : P s -> P (timeout n own blocks delay s).
+  Proof. intro HP. cbv beta delta [timeout]. hp. Qed.
+
+  Lemma P_commit_cb rr ok s : P s -> P (commit_cb blocks rr ok s).
+  Proof.
+    intro HP. cbv beta delta [commit_cb]. destruct (commit_req s); auto. destruct (negb _); auto.
+    plet_step. assert (H0 : P s0) by (subst s0; repeat ppeel).
+    destruct (negb _) eqn:C; auto. destruct (negb ok); [apply P_panic; auto|].
+    apply negb_false_iff, andb_true_iff in C as [_ C]. apply step_eqb_true in C.
+    destruct (cur s0) as [p|] eqn:Cu; [|apply P_panic; auto].
+    plet_step. apply P_set_status; [discriminate|]. subst s1. apply P_finalize; cbn; auto.
+    apply P_set_cur_same; auto. rewrite Cu; reflexivity.
+  Qed.
+
+  Lemma P_propose_cb rr ok b s :
+    P s -> status_ s = Running -> P (propose_cb n own blocks delay rr ok b s).
+  Proof.
+    intros HP R. cbv beta delta [propose_cb]. destruct (prop_req s) as [r|] eqn:Q; auto.
+    destruct (negb (Z.eqb r rr)); auto.
+    pose proof (p_inv HP) as HI. pose proof (P_unblown HP) as U0.
+    plet_step. assert (H0 : P s0) by (subst s0; apply P_clear_prop_req; auto).
+    destruct (negb _) eqn:C; auto.
+    destruct (negb ok); [apply run_P; auto; constructor; exact I|].
+    repeat plet_step. apply run_P; [|constructor; exact I]. subst s2.
+    apply negb_false_iff in C. apply andb_true_iff in C as [C1 C2]. apply Z.eqb_eq in C1.
+    apply step_eqb_true in C2.
+    apply P_set_cur; [subst s1; autorewrite with frame; rewrite C2; discriminate|].
+    subst s1. apply P_send_proposal; auto.
+    - subst s0. cbn. auto.
+    - subst s0. cbn in *.
+      destruct (inv_ctl HI R U0) as [_ _ _ cq]. destruct (cq _ Q) as [_ B].
+      unfold prop_ok; cbn. rewrite C2. repeat split.
+      + cbn; lia.
+      + rewrite C1. apply B; auto.
+      + discriminate.
+  Qed.
+
+  Lemma P_import_cb rr ok s :
+    P s -> status_ s = Running -> P (import_cb n own blocks delay rr ok s).
+  Proof.
+    intros HP R. cbv beta delta [import_cb]. destruct (imp_req s) as [[r b]|] eqn:Q; auto.
+    destruct (negb (Z.eqb r rr)); auto.
+    pose proof (p_inv HP) as HI. pose proof (p_invd HP) as HD. pose proof (P_unblown HP) as U0.
+    plet_step. assert (H0 : P s0) by (subst s0; apply P_clear_imp_req; auto).
+    destruct (_ || _) eqn:C; auto.
+    apply orb_false_iff in C as [C1 C2]. apply negb_false_iff, Z.eqb_eq in C1.
+    assert (OK : forall s', neutral s0 s' -> step_leb (stp s') SPrevoteWait = true -> vote_ok own s' Prevote).
+    { intros s' N L. eapply vote_ok_neutral; [exact N|].
+      destruct (inv_ctl HI R U0) as [_ _ ci _]. destruct (ci _ _ Q) as [A B].
+      rewrite (nt_stp N) in L. subst s0. cbn in *.
+      unfold step_leb in L. apply N.leb_le in L. cbn in L.
+      unfold vote_ok; cbn. repeat split.
+      - unfold pos_le, pos in A; cbn in A. lia.
+      - intros v Hv Ho [E1 E2]. eapply B; eauto. congruence.
+      - intros _ b0 Hb. discriminate. }
+    assert (NL : step_leb (stp s0) SPrevoteWait = true -> locked s0 = None).
+    { intro L. destruct (d_imp HD Q) as [_ B]. subst s0. cbn in *.
+      apply B; auto. unfold step_leb in L. apply N.leb_le in L. exact L. }
+    pose proof (step_leb_commit_false _ C2) as NC.
+    destruct ok.
+    - plet_step.
+      assert (N1 : neutral s0 s1) by (subst s1; destruct (_ && _); auto using neutral_refl, nt_set_cur).
+      assert (H1 : P s1) by (subst s1; destruct (_ && _); auto; apply P_set_cur; auto).
+      assert (S1 : stp s1 = stp s0 /\ locked s1 = locked s0) by (subst s1; destruct (_ && _); cbn; auto).
+      destruct S1 as [S1 L1].
+      destruct (step_leb (stp s1) SPrevoteWait) eqn:L; auto.
+      destruct (cur s1); [|apply P_panic; auto].
+      destruct (p_block b0); [|apply P_panic; auto].
+      apply run_P; auto. constructor; [cbn; intro; apply OK; auto| |exact I].
+      cbn [preD gev_ok]. unfold lock_of. rewrite L1, NL; cbn; auto. rewrite <- S1. exact L.
+    - destruct (step_leb (stp s0) SPrevoteWait) eqn:L; auto.
+      apply run_P; auto. constructor; [cbn; intro; apply OK; auto using neutral_refl| |exact I].
+      cbn [preD gev_ok]. unfold lock_of. rewrite NL; cbn; auto.
+  Qed.
+
+  (* ------------------------------------------------------------------ one event *)
+
+  Lemma P_k0 s v : P s -> K0 v -> known s v.
+  Proof. intros [_ _ [T H]] K. apply (sm_k0 H); auto. Qed.
+
+  Lemma P_set_outs s : P s -> P (set_outs [] None s).
+  Proof.
+    intros H. pose proof (P_fuse H) as F. pose proof (P_unblown H) as U. destruct H as [HI HD [T HS]]. constructor.
+    - destruct HI as [d k c]. constructor; cbn; auto. intros R _. apply Ctl_set_outs; auto.
+    - eapply InvD_dsame; [apply ds_set_outs, dsame_refl|auto].
+    - exists T. eapply Sim_ssame; [|exact HS]. constructor; cbn; auto; tauto.
+  Qed.
+
+  (* the votes an event carries for the current height were known when the event began *)
+  Definition ev_k0 (e : event) : Prop :=
+    match e with
+    | EVote true v => K0 v
+    | EVoteList l => forall c v, In (c, v) l -> c = true -> K0 v
+    | _ => True
+    end.
+
+  Definition ev_plain (e : event) : bool :=
+    match e with ECrash _ _ _ | ERestart => false | _ => true end.
+
+  Lemma P_votelist l : forall s,
+    P s -> (forall c v, In (c, v) l -> c = true -> K0 v) ->
+    P (fold_left (fun s cv => recv_vote n own blocks delay (fst cv) (snd cv) s) l s).
+  Proof.
+    induction l as [|[c v] l IH]; intros s HP K; cbn [fold_left fst snd]; auto.
+    apply IH; [|intros c0 v0 H0; apply K; right; auto].
+    unfold recv_vote. destruct c; cbn [negb]; auto.
+    apply run_P; auto. constructor; [exact I|exact I|]. cbn [preS]. apply P_k0; auto. apply (K true v); auto. left; auto.
+  Qed.
+
+  Lemma P_step_ev e s :
+    P s -> ev_plain e = true -> ev_k0 e -> P (step_ev n own blocks delay e None s).
+  Proof.
+    intros HP Pl K. cbv beta delta [step_ev].
+    set (s0 := set_outs [] None s).
+    assert (H0 : P s0) by (subst s0; apply P_set_outs; auto).
+    clearbody s0. cbv zeta.
+    match goal with |- P (if blown ?x then _ else _) => set (s1 := x) end.
+    assert (H1 : P s1).
+    { subst s1. destruct e; try discriminate Pl; destruct (status_ s0) eqn:R; auto.
+      - apply P_recv_proposal; auto.
+      - apply P_recv_part; auto.
+      - destruct curh; [apply P_recv_vote; auto; apply P_k0; auto|unfold recv_vote; cbn [negb]; auto].
+      - apply P_votelist; auto.
+      - apply P_timeout; auto.
+      - apply P_propose_cb; auto.
+      - apply P_import_cb; auto.
+      - apply P_commit_cb; auto. }
+    clearbody s1. unfold blown. rewrite (P_fuse H1). exact H1.
+  Qed.
+
+  (* ------------------------------------------------------------------ the start of an engine *)
+
+  Definition fresh : st :=
+    mkSt Running 0 SNewHeight (-1) None (-1) None [] (-1) [] false None None None
+         (mkWal [] []) (mkWal [] []) (mkWal [] []) [] O [] None None [].
+
+  Lemma restart_init :
+    restart n own blocks delay init = run n own blocks delay (fuel) AEnterPropose (new_step STxWait fresh).
+  Proof. reflexivity. Qed.
+
+  Lemma P_fresh T : Sim init T -> TM.lock T i = None -> P fresh.
+  Proof.
+    intros H L. constructor.
+    - constructor; cbn; [intros ? []|constructor|].
+      intros _ _. constructor; cbn; try (intros; contradiction); intros; discriminate.
+    - constructor; cbn; auto.
+      + intros r p Hp. inversion Hp.
+      + intro Hx; contradiction.
+      + intros; discriminate.
+      + discriminate.
+      + intros; discriminate.
+    - exists T. destruct H. constructor; auto.
+  Qed.
+
+  Lemma P_restart_init T : Sim init T -> TM.lock T i = None -> P (restart n own blocks delay init).
+  Proof.
+    intros H L. rewrite restart_init. apply run_P; [|constructor; exact I].
+    apply P_new_step; [split; discriminate|discriminate|]. eapply P_fresh; eauto.
+  Qed.
+
 End RunP.
